@@ -290,4 +290,13 @@ EXTRA = dict(assumptions=["losses live in R u {NaN}; +inf is a sentinel above ev
 
 
 def check(tier, seed):
-    return check_property("C18", UNITS, tier, seed, extra=EXTRA)
+    from pyvc import bounded
+    md = bounded.model_differential(300 if tier == "quick" else 3000, seed)
+    extra = dict(EXTRA)
+    extra["explanation"] = (extra.get("explanation", "") + " Assumed library contracts spot-checked on the real functions (not a proof): argmin returns the FIRST NaN index when a NaN is present, argsort a permutation "
+                            "that sorts ascending, nanmax / nanmin the extreme over the non-NaN entries: " + str({k: v for k, v in md.items() if k != "first_disagreements"}))
+    code = check_property("C18", UNITS, tier, seed, extra=extra)
+    if md.get("error") or md.get("disagreements"):
+        print(f"ERROR property=C18 library model differential: {md}")
+        return 3 if code == 0 else code
+    return code
